@@ -206,6 +206,34 @@ def oracle(g, r):
                 F('%d merge callbacks so far, %d items in %d components need exactly %d' % (len(cb_edges), len(items), comps, len(items) - comps), epoch=e)
         elif got_cb:
             F('callbacks ran although async_union was used', epoch=e)
+    # clear() and immediate reuse
+    pc, nsc = {}, {}
+    for l in r['lines']:
+        m = re.match(r'(PC|NSC) (\d+) :(.*)', l)
+        if m:
+            (pc if m.group(1) == 'PC' else nsc)[int(m.group(2))] = m.group(3).split()
+    if len(pc) == g['n']:
+        par = {}
+        for rk, toks in pc.items():
+            for tok in toks:
+                it, rr, pp = map(int, tok.split(','))
+                par[it] = pp
+        want_items = {500000 + k for k in range(g['n'])} | {600000 + k for k in range(g['n'])}
+        if set(par) != want_items:
+            F('after clear() followed at once by two unions per rank the container holds %d items (%s ...), the unions issued name %d' % (len(par), sorted(set(par) ^ want_items)[:6], len(want_items)))
+        else:
+            def rootc(x):
+                seen = 0
+                while par[x] != x and seen <= len(par):
+                    x = par[x]; seen += 1
+                return x
+            if len({rootc(x) for x in par}) != 1:
+                F('after clear() followed at once by a ring of unions the items form %d sets, the unions issued connect them all' % len({rootc(x) for x in par}))
+        for rk, toks in nsc.items():
+            if toks != ['1', str(2 * g['n'])]:
+                F('num_sets / size after clear() and reuse are %s on rank %d, expected 1 and %d' % (toks, rk, 2 * g['n'])); break
+    elif r['verdict'] == 'ok':
+        F('no output of the clear-and-reuse phase')
     return fails, stats
 
 def run(tier, seed, replay=None):
